@@ -18,9 +18,8 @@ every flag combination (NO_HINTING, SET_OVERLAPS_FLAG, …) and every glyph map:
 non-empty, then read-fonts parses both records (`SimpleGlyph::read`), and the subset has the same contour count, bounding
 box and contour end points, the same points — coordinates and on-curve flags, as yielded by `points()` (`PointIter` over
 `resolve_coords_len`) —, its instructions are the original's (none under NO_HINTING), and `read_points_fast` (what skrifa
-draws from) answers the same on both, provided the original's flag array is not longer than its point count (the fast
-reader looks at no more than `num_points` flag bytes; a record with more flag bytes than points — only possible with
-repeat counts of zero — is mis-decoded by it before and after subsetting, see reports/C17.md).  Padding after the
+draws from; read-fonts after `fix:` d12a1b2, which widened its flag window to two bytes per point — found by this
+theorem's first version, see reports/C17.md) answers the same on both.  Padding after the
 coordinate data is the only thing removed; OVERLAP_SIMPLE on the first flag does not change any decoded value.  `pad` =
 whatever follows the rewritten record inside its loca range (klippa's own alignment byte in the short loca format): it
 is never read. -/
@@ -32,8 +31,7 @@ theorem subset_simple_glyph_decodes_equal (flags : Nat) (gmap : Nat → Option N
       v'.endPts = v.endPts ∧
       v'.instructions = (if hasFlag flags F_NO_HINTING then [] else v.instructions) ∧
       v'.points = v.points ∧
-      ((∀ fl xl yl, Glyf.resolveCoordsLen v.glyphData 0 v.numPoints 0 0 = some (fl, xl, yl) → fl ≤ v.numPoints) →
-        v'.readPointsFast = v.readPointsFast) := by
+      v'.readPointsFast = v.readPointsFast := by
   obtain ⟨v, v', h1, h2, e1, e2, e3, e4, e5, e6, e7, e8, e9, _⟩ := simple_decodes_equal flags gmap d out pad hb hs h hne
   exact ⟨v, v', h1, h2, e1, e2, e3, e4, e5, e6, e7, e8, e9⟩
 
@@ -178,8 +176,10 @@ example : subsetGlyphBytes 0 exMap (exComposite.take 26) = .bytes ((exComposite.
 example : subsetGlyphBytes 0 (fun g => some g) (exComposite.take 30 |>.set 13 2 |>.set 19 3) =
     .bytes (exComposite.take 30 |>.set 13 2 |>.set 19 3) := by decide
 
-/-- the hypothesis of the `read_points_fast` clause is satisfiable (3 points, 2 flag bytes) -/
-example : Glyf.resolveCoordsLen [0x3F, 2, 1, 2, 3, 4, 5, 6, 0, 0] 0 3 0 0 = some (2, 3, 3) := by decide
+/-- flag arrays longer than the point count (repeat runs of count 0) are decoded by both readers -/
+example : (Glyf.readSimple [0, 1, 0, 0, 0, 0, 1, 244, 1, 244, 0, 2, 0, 0, 0x3F, 0, 0x3F, 0, 0x3F, 0, 1, 2, 3, 4, 5, 6]).map
+    (fun v => (v.points, v.readPointsFast)) =
+    some ([⟨1, 4, true⟩, ⟨3, 9, true⟩, ⟨6, 15, true⟩], some [(1, 4, 1), (3, 9, 1), (6, 15, 1)]) := by decide
 
 /-- `simple_glyph_emptied_only_if_undecodable` has instances: 4 points, one repeat run of 5 -/
 example : subsetGlyphBytes 0 (fun _ => none) [0, 1, 0, 0, 0, 0, 0, 9, 0, 9, 0, 3, 0, 0, 0x3F, 4, 1, 2, 3, 4, 5, 6, 7, 8, 0, 0] =
